@@ -122,6 +122,10 @@ impl Buildpack for TB {
             for (i, t) in ["web", "worker", "console", "release"].iter().enumerate() { lb.process(ProcessBuilder::new(t.parse().unwrap(), [format!("cmd-{i}")]).arg(format!("arg-{i}")).default(i == 0).build()); }
             for i in 0..8 { lb.label(libcnb::data::launch::Label { key: format!("org.example.label-{}", (i * 5) % 8), value: format!("value-{i}") }); }
             for i in 0..3 { lb.slice(libcnb::data::launch::Slice { path_globs: vec![format!("dir-{i}/**"), format!("*.{i}")] }); }
+            // the plural builder methods, several items each
+            lb.labels((0..6).map(|i| libcnb::data::launch::Label { key: format!("bulk.label-{}", (i * 5) % 6), value: format!("bulk-{i}") }));
+            lb.slices((0..4).map(|i| libcnb::data::launch::Slice { path_globs: vec![format!("bulk-{i}/**")] }));
+            lb.processes(["clock", "scheduler", "migrate"].iter().enumerate().map(|(i, t)| ProcessBuilder::new(t.parse().unwrap(), [format!("bulk-cmd-{i}")]).args([format!("a{i}"), format!("b{i}")]).build()));
             b = b.launch(lb.build());
         }
         if has("richlaunch2") {
